@@ -297,7 +297,7 @@ def values_equal(st, a, b):
 # ---------------------------------------------------------------- verification
 class Result:
     """One obligation."""
-    __slots__ = ('name', 'verdict', 'seconds', 'backend', 'detail', 'model', 'smt2', 'kind')
+    __slots__ = ('name', 'verdict', 'seconds', 'backend', 'detail', 'model', 'smt2', 'kind', 'replay')
 
     def __init__(self, name, verdict, seconds=0.0, backend='z3-api-5.1', detail='', model=None, smt2=None,
                  kind='post'):
@@ -309,10 +309,11 @@ class Result:
         self.model = model        # concretised inputs when refuted
         self.smt2 = smt2
         self.kind = kind
+        self.replay = None
 
     def to_json(self):
         return {'name': self.name, 'verdict': self.verdict, 'seconds': round(self.seconds, 4),
-                'backend': self.backend, 'detail': self.detail, 'kind': self.kind}
+                'backend': self.backend, 'detail': self.detail, 'kind': self.kind, 'replay': self.replay}
 
 
 @contextlib.contextmanager
